@@ -3,11 +3,14 @@ from __future__ import annotations
 
 import itertools
 
+import fam_e2e as E
 import fam_stream as FS
+import gen_akai as GA
 from common import Case, Finding, Report, compare_family
 
 ASSUMPTIONS = [
     "the shared handle is modelled with BytesIO semantics; the tool is single-threaded, so an interleaving is a sequence of whole operations",
+    "image level: the data streams the real parser hands out for the samples of a generated AKAI image (two partitions whose files occupy the same partition-relative sectors); reference = the payload the writer stored; reads only (seek/tell/read with the C08 clamping rules)",
 ]
 
 
@@ -70,12 +73,96 @@ def oracle_case(rep: Report, name, base, specs, roots, sched, out):
             return
 
 
+def image_streams(path):
+    """open the image with the real tool and collect (tree path, data stream) of every sample."""
+    from smpl_extract import actions as A
+    from smpl_extract.base import ElementTypes
+
+    image = A.determine_image_type(path)
+    image.set_routines({"make_safe_names": image.make_safe_names_routine, "make_export_names": image.make_export_names_routine})
+    out = []
+
+    def walk(node, trail):
+        for i, ch in enumerate(node.children):
+            if getattr(ch, "type_id", None) == ElementTypes.SampleEntry:
+                smp = ch.to_generalized()
+                for j, ds in enumerate(smp.data_streams):
+                    out.append((trail + (i, j), ds.stream))
+            elif hasattr(ch, "children"):
+                walk(ch, trail + (i,))
+
+    walk(image, ())
+    return image, out
+
+
+def image_round(rep: Report, ctx, rng, tag):
+    """interleaved reads on the sample streams of one image, across volumes and partitions."""
+    W = GA.random_words
+    parts = []
+    sizes = [rng.choice([30, 4026, 5000, 9000]) for _ in range(rng.randint(2, 3))]
+    for pi in range(2):
+        files = [GA.SampleFile(f"P{pi}F{k}", W(rng, n)) for k, n in enumerate(sizes)]
+        parts.append(GA.Partition([GA.Volume(f"VOL{pi}", files)], sectors=16))
+    # same shapes in both partitions: the files of A and B then sit in the same partition-relative sectors
+    seed = rng.randrange(1 << 30)
+    import random as _r
+    img, info = GA.serialize(GA.Disc(parts), _r.Random(seed), shapes=(rng.choice(["contiguous", "reversed", "rotl"]),))
+    with E.Scratch() as sc:
+        path = sc.write("x.img", img)
+        image, streams = image_streams(path)
+        if len(streams) < 2:
+            return
+        # reference: the bytes each stream yields = the sample payload the writer stored (start..end window = everything)
+        want = {}
+        for pi in range(2):
+            for k, n in enumerate(sizes):
+                f = parts[pi].volumes[0].files[k]
+                want[(pi, 0, k, 0)] = b"".join(int(w).to_bytes(2, "little") for w in f.words)
+        pos = {key: 0 for key, _ in streams}
+        sched = []
+        detail = {"image": tag, "sizes": sizes, "serialize_seed": seed}
+        for step in range(ctx.n(150, 600)):
+            key, st = streams[rng.randrange(len(streams))]
+            data = want.get(key)
+            if data is None:
+                continue
+            r = rng.random()
+            if r < 0.6:
+                n = rng.choice([1, 7, 100, 4096, 8192, 10000])
+                got = st.read(n)
+                exp = data[pos[key]:pos[key] + n]
+                pos[key] += len(exp)
+                sched.append(["read", list(key), n])
+                if got != exp:
+                    rep.findings.append(Finding("image-stream-interference", dict(detail, stream=list(key), at=pos[key] - len(exp), n=n, got_len=len(got), first_diff=next((i for i, (a, b) in enumerate(zip(got, exp)) if a != b), min(len(got), len(exp))), schedule_tail=sched[-12:])))
+                    return
+            elif r < 0.85:
+                off = rng.choice([0, 0, rng.randrange(len(data) + 1)])
+                st.seek(off, 0)
+                pos[key] = off
+                sched.append(["seek", list(key), off])
+            elif r < 0.95:
+                got = st.tell()
+                sched.append(["tell", list(key)])
+                if got != pos[key]:
+                    rep.findings.append(Finding("image-stream-tell", dict(detail, stream=list(key), got=got, want=pos[key], schedule_tail=sched[-12:])))
+                    return
+            else:
+                # a lazy realisation in between: list some directory again through a FRESH walk of the same image object
+                for node in image.children:
+                    _ = [c for c in node.children]
+                sched.append(["ls"])
+        rep.evaluations += 1
+        rep.nontrivial.add(("image", tag))
+        rep.feat("image_level_interleavings")
+
+
 def run(ctx, rep: Report, deep: bool = False):
     rng = ctx.rng
     rep.rule = (
         "exhaustive: every interleaving of 2-3 streams x 3 small programs each (block reads of 1,2,3,5 units, a seek or tell in between) over 6 sharing "
         "topologies (chains over one window, windows over one file, AKAI-style wrap/chain/offset stacks, reversed+forward, raw-sector view); random: schedules of 50-300 ops; "
-        "oracle: each stream's answers under the interleaving = its answers when run alone on fresh objects; distinct = distinct scenario line; non-trivial = >= 2 streams actually interleaved"
+        "image level: random schedules of reads / seeks / tells / re-listings over the sample data streams the real parser hands out for two-partition AKAI images whose files share partition-relative sectors; oracle: each stream's answers under the interleaving = its answers when run alone on fresh objects; distinct = distinct scenario line; non-trivial = >= 2 streams actually interleaved"
     )
     cases = []
     sets = setups(rng)
@@ -108,10 +195,12 @@ def run(ctx, rep: Report, deep: bool = False):
         cases.append(Case(FS.scenario_line(base, specs, sched), " ; ".join(out), name))
         oracle_case(rep, name, base, specs, roots, sched, out)
         rep.feat("random_schedules")
+    for i in range(ctx.n(6, 60)):
+        image_round(rep, ctx, rng, f"akai{i}")
     if ctx.model_available:
         compare_family(rep, "stream-multi", cases, nontrivial=lambda c: True, exhaustive=True)
     rep.exhaustive = True
-    rep.required_features = ["exhaustive_interleavings", "random_schedules"]
+    rep.required_features = ["exhaustive_interleavings", "random_schedules", "image_level_interleavings"]
 
 
 def search(ctx, rep: Report):
